@@ -127,10 +127,13 @@ Definition exn_eqb (a b : exn) : bool :=
      fl_props_check     set_properties(name=...) checks the scope like set_property / rename (C07-8, e7f5960)
      fl_link_cp_only    add_link refuses arguments that are not interfaces (proposed C07-9)
      fl_disc_peering    disconnect_interface refuses a peering port, i.e. a service port whose peer is a service port:
-                        such a port goes with unpeer (proposed C07-10) *)
+                        such a port goes with unpeer (proposed C07-10)
+     fl_parent_first    add_interface_sliver looks the parent up before it adds the node (a4fc126, C09); only observable
+                        through the handle of a removed service, so only OStaleAddIface reads it *)
 Record flags := mkFlags { fl_rename_check : bool; fl_link_refuse : bool; fl_skip_gone : bool; fl_connect_names : bool;
                           fl_comp_precheck : bool; fl_connect_undo : bool; fl_peer_checks : bool;
-                          fl_props_check : bool; fl_link_cp_only : bool; fl_disc_peering : bool }.
+                          fl_props_check : bool; fl_link_cp_only : bool; fl_disc_peering : bool;
+                          fl_parent_first : bool }.
 
 Record st := mkSt { sg : graph; sdr : list str }.
 Inductive res (A : Type) := Ok (a : A) | Err (e : exn).
